@@ -32,7 +32,8 @@ PROP = dict(
          "every coding header of <=2 codings x every coding list; a syntax grid (parameters before/after q incl. quoted values and a "
          "name ending in q, OWS placements, q spellings .5 / 0.5 / 1. / 0.250) x following ranges; header lines without ranges (empty or white "
          "space only) before, between and after the lines that carry ranges; through the API every operation shape: methods GET / POST / DELETE / "
-         "HEAD x declared success response 200 / 201 / 204 / default-only. Seeded part: random headers of up to 6 "
+         "HEAD x declared success response 200 / 201 / 204 / default-only; long headers of 33-130 ranges on one or many lines with the decisive "
+         "range late. Seeded part: random headers of up to 6 "
          "ranges on 1-3 lines with 0-80 fractional q digits, random offer lists, a quarter through the API; arbitrary bytes incl. a grid of quoted-string parameter values (quoted-pairs, separators inside "
          "quotes, unterminated, ending in a backslash) at every position of multi-line headers (totality and membership only). Non-trivial: >=2 ranges and some negotiation returned an offer (not the default); distinct by hash.",
     exhaustive=True,
